@@ -16,12 +16,15 @@ TRANSLATE = ['argskey', 'disk']     # disk: Disk.store / Disk.fetch decide how a
 TRUSTED = [
     'model of cache-key identity: two key tuples address one entry iff their elements are equal including type (what Disk.put does by pickling); checked against Disk.put on every enumerated pair',
     'the abstract store of model/Memo.v stands for Cache.get/set (C03)',
+    'harness/sched.py Tracer: the BEGIN statements of the calling thread are counted at the sqlite3 connection factory; the holder connection is released from that hook (single-threaded, deterministic)',
 ]
 ASSUMPTIONS = [
     'wrapped function is deterministic and does not depend on ignored arguments',
     '"exactly what the function returns" is decided as: same type (not merely ==), same repr, equal, member by member inside tuples/lists/dicts; '
     'results are picklable values (None, bool, int, IntEnum / int-subclass / float-subclass instances, 0.0 and -0.0, inf, big ints, str, bytes, containers of these)',
     'no other writer stores under the memo keys',
+    'lock contention: the other client only HOLDS the write lock (BEGIN IMMEDIATE ... COMMIT without writing) and lets go after finitely many failed attempts of the caller; '
+    'the retry loop of Cache._transact does not sleep (each failed BEGIN waits the SQLite busy timeout in real time, 2 ms here), so the virtual clock does not advance while waiting',
 ]
 
 ALPHA = [None, 1, 1.0, True, 'a', 'b', int]
@@ -385,6 +388,7 @@ def wrapper_runs(ctx, res, nhist, hist_len):
             f = fac(expire, typed, ign)(raw)
             stored_by = {}
             before_store_ok = {}
+            ran_for_vis = {}            # visible arguments -> (time the function last ran for them, that call)
             clock.set(1000.0)
             last_store = {}
             trace = []
@@ -423,6 +427,21 @@ def wrapper_runs(ctx, res, nhist, hist_len):
                     age = clock.now - prev
                     if ttl is None or age < ttl:
                         res.violations.append(fw.Violation('repeat_recomputed', 'a repeated call within the expiry time ran the function again (result %r)' % (want,), case))
+                # the same decided from the ARGUMENTS alone (not from the key the implementation derives from them): the function ran
+                # for these visible arguments before, possibly in a call with other values in ignored positions / keyword names
+                v = vis(a, kw, ign)
+                seen = ran_for_vis.get(v)
+                if ran and prev is None and seen is not None and stores and kind != 'stampede':
+                    ttl = 5 if (isinstance(expire, int) and not isinstance(expire, bool)) else (300 if expire == 'default' else None)
+                    if ttl is None or clock.now - seen[0] < ttl:
+                        differs = enc_call(*seen[1]) != enc_call(a, kw)          # by repr: (1, True) == (1, 1.0) in Python
+                        res.violations.append(fw.Violation(
+                            'ignored_argument_recomputed' if differs else 'repeat_recomputed',
+                            'a call that %s an earlier call (%r, %r) ran the function again within the expiry time' % (
+                                'differs only in ignored arguments %r from' % (ign,) if differs else 'repeats', seen[1][0], seen[1][1]),
+                            dict(case, check='ignored_arguments', calls=[enc_call(*seen[1]), enc_call(a, kw)])))
+                if ran:
+                    ran_for_vis[v] = (clock.now, (a, kw))
                 if ran:
                     stored_by.setdefault(kid, (a, kw))
                     before_store_ok[kid] = clock.now
@@ -450,6 +469,321 @@ def wrapper_runs(ctx, res, nhist, hist_len):
             hist_kinds[kind] = hist_kinds.get(kind, 0) + 1
             close()
     res.extra['wrapper_histories_by_kind'] = hist_kinds
+
+
+def enc_call(a, kw):
+    return [list(map(repr, a)), {k: repr(v) for k, v in kw.items()}]
+
+
+def dec_value(text):
+    return int if text == repr(int) else eval(text, {'int': int, 'inf': float('inf')})      # noqa: S307 (reprs written by this module)
+
+
+def dec_call(call):
+    return tuple(dec_value(x) for x in call[0]), {k: dec_value(v) for k, v in call[1].items()}
+
+
+# ---------------------------------------------------------------------------
+# ignored arguments: calls that differ only in ignored positions / keyword names are ONE call for the memo table
+
+
+IGN_BASES = [(a, kw) for n in range(3) for a in itertools.product([1, 'a', None], repeat=n)
+             for kw in ({}, {'a': 1}, {'b': 'b'}, {'b': 1, 'a': None})]
+IGN_OTHER = [1.0, 'zz']        # what an ignored argument is changed to (another value, another type)
+
+
+def ignored_variants(a, kw, ign):
+    """Calls that differ from (a, kw) only in ignored arguments: another value (of another type) in an ignored position or under
+    an ignored keyword name, an ignored trailing position / keyword name present or absent."""
+    out = []
+    for i in ign:
+        if isinstance(i, int):
+            if i < len(a):
+                out.extend((a[:i] + (o,) + a[i + 1:], dict(kw)) for o in IGN_OTHER if describe(o) != describe(a[i]))
+                if i == len(a) - 1:
+                    out.append((a[:i], dict(kw)))
+            elif i == len(a):
+                out.append((a + (IGN_OTHER[1],), dict(kw)))
+        elif i in kw:
+            out.extend((a, dict(kw, **{i: o})) for o in IGN_OTHER)
+            out.append((a, {k: v for k, v in kw.items() if k != i}))
+        else:
+            out.append((a, dict(kw, **{i: IGN_OTHER[0]})))
+    return out
+
+
+def ignore_result(a, kw, ign):
+    """What the wrapped function returns: decided by the visible arguments alone (ASSUMPTIONS: it does not depend on ignored ones)."""
+    r = repr(vis(a, kw, ign))
+    h = sum(map(ord, r))
+    return fresh_result(h // 3) if h % 3 == 0 else r
+
+
+def run_ignored(res, clock, fac, kind, typed, ign, expire, sequence, advance=0):
+    """Monitor over one decorated function and a sequence of calls: once the function has run for some visible arguments, every
+    further call with the same visible arguments (whatever the ignored ones are) is served from the cache -- the function body does
+    not run -- and returns what the function returns.  (Calls with DIFFERENT visible arguments sharing an entry are the business
+    of enumerate_keys / wrapper_runs and are skipped here.)"""
+    counter = {'n': 0}
+
+    def raw(*args, **kwargs):
+        counter['n'] += 1
+        return ignore_result(args, kwargs, ign)
+    f = fac(expire, typed, ign)(raw)
+    seen = {}           # visible arguments -> the call the function ran for
+    stored_by = {}      # implementation key -> the call that stored it
+    bad = []
+    for a, kw in sequence:
+        if advance:
+            clock.advance(advance)
+        v = vis(a, kw, ign)
+        before = counter['n']
+        try:
+            got = f(*a, **kw)
+        except Exception as e:  # noqa: BLE001
+            bad.append(('ignored_argument_raised', seen.get(v, (a, kw)), (a, kw), 'the call raised %r' % (e,)))
+            break
+        ran = counter['n'] > before
+        res.count(['ignored', kind, typed, repr(ign), expire, repr(a), repr(sorted(kw.items()))], nontrivial=True)
+        try:
+            kid = repr(f.__cache_key__(*a, **kw))
+        except Exception:  # noqa: BLE001
+            kid = None
+        first = seen.get(v)
+        if ran:
+            stored_by[kid] = (a, kw)
+        if first is None:
+            if ran:
+                seen[v] = (a, kw)
+            continue
+        want = ignore_result(a, kw, ign)
+        same_call = enc_call(*first) == enc_call(a, kw)             # by repr: (1, True) == (1, 1.0) in Python
+        rel = 'repeats' if same_call else 'differs only in ignored arguments %r from' % (ign,)
+        if ran:
+            bad.append(('repeat_recomputed' if same_call else 'ignored_argument_recomputed', first, (a, kw),
+                        'the call f%r %s the earlier call f%r and ran the function again' % ((a, kw), rel, first)))
+            break
+        storer = stored_by.get(kid, first)
+        if vis(storer[0], storer[1], ign) == v and not same_result(got, want):
+            bad.append(('result_altered:cached_hit' if same_call else 'ignored_argument_result', first, (a, kw),
+                        'the call f%r %s the earlier call f%r and returned %s, the function returns %s' % (
+                            (a, kw), rel, first, describe(got), describe(want))))
+            break
+    return bad
+
+
+def ignored_arguments(ctx, res, nbases):
+    """Every memoizer x typed x every non-empty ignore set: base calls, then their variants in ignored arguments, then the base again."""
+    clock = instr.Clock(1000.0)
+    bases = IGN_BASES if nbases >= len(IGN_BASES) else ctx.rng.sample(IGN_BASES, nbases)
+    found = {}
+    ncalls = 0
+    with instr.Installed(clock):
+        for kind in MEMO_KINDS:
+            for typed, ign in CONFIGS:
+                if not ign:
+                    continue
+                expire = None if kind in ('index', 'cache', 'fanout') else 'default' if kind == 'django' else 50
+                if typed and kind in ('cache', 'fanout'):
+                    expire = 50
+                d = ctx.scratch('c16g')
+                fac, _, close = make_target(kind, d, clock)
+                clock.set(1000.0)
+                sequence = []
+                for a, kw in bases:
+                    sequence.append((a, kw))
+                    sequence.extend(ignored_variants(a, kw, ign))
+                    sequence.append((a, kw))
+                ncalls += len(sequence)
+                try:
+                    bad = run_ignored(res, clock, fac, kind, typed, ign, expire, sequence)
+                finally:
+                    close()
+                for sig, first, call, text in bad:
+                    found.setdefault((sig, kind), []).append((typed, ign, expire, first, call, text))
+    for (sig, kind), items in sorted(found.items()):
+        typed, ign, expire, first, call, text = items[0]
+        res.violations.append(fw.Violation(sig, '%s memoizer, typed=%r, ignore=%r: %s (%d configurations of this memoizer fail)' % (
+            kind, typed, ign, text, len(items)),
+            {'check': 'ignored_arguments', 'kind': kind, 'typed': typed, 'ignore': list(map(repr, ign)), 'expire': expire,
+             'calls': [enc_call(*first), enc_call(*call)]}))
+    res.extra['ignored_argument_calls'] = ncalls
+
+
+# ---------------------------------------------------------------------------
+# a repeated call while another client of the cache directory holds the write lock
+
+
+CONTENTION_MODES = {
+    'default': {},
+    'statistics': {'statistics': True},
+    'lru': {'eviction_policy': 'least-recently-used'},
+    'lfu': {'eviction_policy': 'least-frequently-used'},
+}
+CONTENTION_KINDS = ['cache', 'fanout', 'django', 'index', 'stampede', 'stampede-fanout']
+CONTENTION_TIMEOUT = 0.002      # SQLite busy timeout of the memoizer's connections (seconds of REAL time per failed BEGIN)
+CONTENTION_CALLS = [((1,), {}), (('a', None), {'b': 1.0}), ((), {'a': True}), ((1.0, int), {})]
+
+
+def make_contended(kind, d, mode):
+    """Memoizer of `kind` over directory d with the settings of `mode`: (decorator_factory(name, expire, typed, ignore), close).
+    Must be called with the tracer installed so that the connections are traced."""
+    settings = dict(CONTENTION_MODES[mode])
+    if kind in ('cache', 'index', 'stampede'):
+        c = diskcache.Cache(d, timeout=CONTENTION_TIMEOUT, **settings)
+        if kind == 'cache':
+            return (lambda name, expire, typed, ign: c.memoize(name=name, typed=typed, expire=expire, ignore=ign)), c.close
+        if kind == 'index':
+            ix = diskcache.Index.fromcache(c)
+            return (lambda name, expire, typed, ign: ix.memoize(name=name, typed=typed, ignore=ign)), c.close
+        return (lambda name, expire, typed, ign: diskcache.memoize_stampede(c, expire or 100, name=name, typed=typed, ignore=ign)), c.close
+    if kind in ('fanout', 'stampede-fanout'):
+        c = diskcache.FanoutCache(d, shards=3, timeout=CONTENTION_TIMEOUT, **settings)
+        if kind == 'fanout':
+            return (lambda name, expire, typed, ign: c.memoize(name=name, typed=typed, expire=expire, ignore=ign)), c.close
+        return (lambda name, expire, typed, ign: diskcache.memoize_stampede(c, expire or 100, name=name, typed=typed, ignore=ign)), c.close
+    if kind == 'django':
+        from django.conf import settings as dj
+        if not dj.configured:
+            dj.configure()
+        from diskcache.djangocache import DjangoCache
+        c = DjangoCache(d, {'SHARDS': 2, 'DATABASE_TIMEOUT': CONTENTION_TIMEOUT, 'OPTIONS': settings})
+        return (lambda name, expire, typed, ign: c.memoize(name=name, timeout=expire, typed=typed, ignore=ign)), c.close
+    raise ValueError(kind)
+
+
+def database_files(d):
+    return sorted(os.path.join(root, n) for root, _, names in os.walk(d) for n in names if n == 'cache.db')
+
+
+def run_contention(res, fac, d, tracer, hook, kind, mode, phase, k, name, typed, ign, expire, call):
+    """One decorated function, one call signature.  phase 'repeat': the function has run and a repeated call was served from the
+    cache; then ANOTHER connection takes the write lock of every database of the directory and keeps it through k failed
+    BEGIN attempts of the calling thread (released right before attempt k+1) while the call is repeated again.  phase 'first':
+    the lock is held like that during the FIRST call (the one that stores), the repeated calls follow without contention.
+    In both, every repeated call is served from the cache (the function body does not run) and returns what the function returns."""
+    import sqlite3
+    a, kw = call
+    counter = {'n': 0}
+
+    def raw(*args, **kwargs):
+        counter['n'] += 1
+        return ignore_result(args, kwargs, ign)
+    f = fac(name, expire, typed, ign)(raw)
+    want = ignore_result(a, kw, ign)
+    bad = []
+
+    def one(label, contended):
+        holders = []
+        before = counter['n']
+        err = None
+        got = None
+        try:
+            if contended:
+                for db in database_files(d):
+                    h = sqlite3.connect(db, isolation_level=None, timeout=0)
+                    h.execute('BEGIN IMMEDIATE')
+                    holders.append(h)
+                hook['begins'] = 0
+                hook['release_at'] = k + 1
+                hook['holders'] = holders
+                tracer.enable(True)
+            try:
+                got = f(*a, **kw)
+            except Exception as e:  # noqa: BLE001
+                err = e
+            finally:
+                tracer.enable(False)
+        finally:
+            hook['holders'] = []
+            for h in holders:
+                if h.in_transaction:
+                    h.execute('ROLLBACK')
+                h.close()
+        res.count(['contention', kind, mode, phase, k, typed, repr(ign), repr(a), repr(sorted(kw.items())), label], nontrivial=True)
+        return got, err, counter['n'] > before, (hook.get('begins', 0) if contended else 0)
+
+    steps = ([('first call', False), ('repeated call', False), ('repeated call under contention', True), ('repeated call afterwards', False)]
+             if phase == 'repeat' else
+             [('first call under contention', True), ('repeated call', False), ('second repeated call', False)])
+    for n, (label, contended) in enumerate(steps):
+        got, err, ran, begins = one(label, contended)
+        waited = (' (the other connection kept the write lock through %d failed BEGIN attempt(s) of the caller, %d attempted)' % (k, begins)) if contended else ''
+        if err is not None:
+            bad.append(('contention_raised', 'the %s%s raised %r' % (label, waited, err)))
+            break
+        if not same_result(got, want):
+            bad.append(('result_altered:lock_contention', 'the %s%s returned %s, the function returns %s' % (label, waited, describe(got), describe(want))))
+            break
+        if n == 0 and not ran:
+            bad.append(('phantom_hit', 'the %s did not run the function' % label))
+            break
+        if n > 0 and ran:
+            if contended:
+                bad.append(('repeat_recomputed:lock_contention', 'the %s%s ran the function again instead of waiting for the lookup' % (label, waited)))
+            elif phase == 'first':
+                bad.append(('repeat_recomputed:stored_under_contention', 'the %s ran the function again: the result of the first call, computed while '
+                            'another connection kept the write lock through %d failed BEGIN attempt(s), was not stored' % (label, k)))
+            else:
+                bad.append(('repeat_recomputed', 'the %s ran the function again' % label))
+            break
+    return bad
+
+
+def contention_case(ctx_scratch, res, kind, mode, jobs):
+    """Runs jobs = [(phase, k, typed, ign, expire, call)] on one memoizer (a fresh function name per job)."""
+    import sched
+    clock = instr.Clock(1000.0)
+    hook = {'begins': 0, 'release_at': 0, 'holders': []}
+
+    def before(ev):
+        if ev.kind == 'sql' and ev.what == 'BEGIN':
+            hook['begins'] += 1
+            if hook['begins'] == hook['release_at']:
+                for h in hook['holders']:
+                    if h.in_transaction:
+                        h.execute('COMMIT')
+    tracer = sched.Tracer(before=before)
+    out = []
+    d = ctx_scratch()
+    with instr.Installed(clock), tracer:
+        fac, close = make_contended(kind, d, mode)
+        try:
+            for n, (phase, k, typed, ign, expire, call) in enumerate(jobs):
+                bad = run_contention(res, fac, d, tracer, hook, kind, mode, phase, k, 'f%d' % n, typed, ign, expire, call)
+                out.append(bad)
+        finally:
+            tracer.enable(False)
+            close()
+    return out
+
+
+def lock_contention(ctx, res, ncalls):
+    """Every memoizer x {default settings, statistics, least-recently-used, least-frequently-used} (with the last three a lookup
+    needs the write lock) x {lock held during a repeated call, during the first call} x k in {1, 3} failed attempts."""
+    found = {}
+    n = 0
+    for kind in CONTENTION_KINDS:
+        for mode in CONTENTION_MODES:
+            jobs = []
+            for phase in ('repeat', 'first'):
+                for k in (1, 3):
+                    for call in (CONTENTION_CALLS if ncalls >= len(CONTENTION_CALLS) else ctx.rng.sample(CONTENTION_CALLS, ncalls)):
+                        typed, ign = CONFIGS[ctx.rng.randrange(len(CONFIGS))]
+                        expire = None if kind == 'index' else ctx.rng.choice([None, 50])
+                        jobs.append((phase, k, typed, ign, expire, call))
+            n += len(jobs)
+            outs = contention_case(lambda: ctx.scratch('c16l'), res, kind, mode, jobs)
+            for job, bad in zip(jobs, outs):
+                for sig, text in bad:
+                    found.setdefault((sig, kind), []).append((mode, job, text))
+    for (sig, kind), items in sorted(found.items()):
+        mode, (phase, k, typed, ign, expire, call), text = items[0]
+        res.violations.append(fw.Violation(sig, '%s memoizer, %s settings: %s (%d cases of this memoizer fail, settings: %s)' % (
+            kind, mode, text, len(items), ', '.join(sorted({x[0] for x in items}))),
+            {'check': 'lock_contention', 'kind': kind, 'mode': mode, 'phase': phase, 'failed_attempts': k, 'typed': typed,
+             'ignore': list(map(repr, ign)), 'expire': expire, 'call': enc_call(*call)}))
+    res.extra['lock_contention_cases'] = n
 
 
 def stampede_guard(ctx, res):
@@ -638,19 +972,30 @@ def run(ctx):
                 'virtual clock, results drawn from an alphabet of result kinds (None, False/True, 0, 1, 0.0, -0.0, inf, IntEnum members, int and float '
                 'subclass instances, big ints, str, bytes, tuples/list/dict/frozenset containing them) and compared with type identity (same type, same '
                 'repr, equal, member by member); the whole result alphabet through every memoizer x typed x expire: first call, cached hits, a hit 3 s '
-                'later; expire 0 and -1 on Cache/FanoutCache/DjangoCache: every call runs the function and no entry (inline or file-backed) is left.  non-trivial = at least one argument; distinct = distinct (config, call).')
+                'later; expire 0 and -1 on Cache/FanoutCache/DjangoCache: every call runs the function and no entry (inline or file-backed) is left; '
+                'ignored arguments: on every memoizer x typed x the 4 non-empty ignore sets, base calls (arity <= 2 over {1, "a", None}, 4 keyword sets) followed by '
+                'their variants in ignored positions / keyword names (other value and type, present / absent) and the base again: once the function has run '
+                'for some visible arguments no further call with those visible arguments runs it, and each returns its result (wrapper histories decide '
+                'the same from the arguments, not from __cache_key__); lock contention: Cache / FanoutCache / DjangoCache / Index / memoize_stampede on a Cache '
+                'and on a FanoutCache x settings {default, statistics, least-recently-used, least-frequently-used} x {lock held during a repeated call, '
+                'during the first call} x k in {1, 3}: a second SQLite connection holds the write lock of every shard database through k failed BEGIN '
+                'attempts of the caller and commits right before attempt k+1; every repeated call is served from the cache and returns the result.  non-trivial = at least one argument; distinct = distinct (config, call).')
     if ctx.quick:
         cc = enumerate_keys(ctx, res, 2, 2)
         correspondence(ctx, res, cc, 1200)
         result_identity(ctx, res)
         zero_expiry(ctx, res)
         wrapper_runs(ctx, res, 25, 30)
+        ignored_arguments(ctx, res, 12)
+        lock_contention(ctx, res, 1)
     else:
         cc = enumerate_keys(ctx, res, 3, 2)
         correspondence(ctx, res, cc, 6000)
         result_identity(ctx, res)
         zero_expiry(ctx, res)
         wrapper_runs(ctx, res, 150, 60)
+        ignored_arguments(ctx, res, len(IGN_BASES))
+        lock_contention(ctx, res, len(CONTENTION_CALLS))
     res.extra['exhaustive'] = True
     stampede_guard(ctx, res)
     stampede_recompute(ctx, res)
@@ -665,6 +1010,8 @@ def search(ctx, broken):
     result_identity(ctx, res)
     zero_expiry(ctx, res)
     wrapper_runs(ctx, res, 60, 40)
+    ignored_arguments(ctx, res, len(IGN_BASES))
+    lock_contention(ctx, res, 2)
     stampede_guard(ctx, res)
     stampede_recompute(ctx, res)
     derived_names(ctx, res)
@@ -683,11 +1030,9 @@ def replay(payload):
             @c.memoize(name='f', typed=case['typed'], ignore=ign)
             def f(*a, **k):
                 return None
-            env = {'int': int}
             ks = []
             for call in (case['call1'], case['call2']):
-                a = [eval(x, env) for x in call[0]]
-                kw = {k: eval(v, env) for k, v in call[1].items()}
+                a, kw = dec_call(call)
                 ks.append(key_id(c.disk, f.__cache_key__(*a, **kw)))
             c.close()
             print('key1 == key2:', ks[0] == ks[1])
@@ -724,6 +1069,38 @@ def replay(payload):
                     close()
             for sig, text in bad:
                 print('MONITOR %s: %s' % (sig, text))
+            return not bad
+        finally:
+            shutil.rmtree(d, ignore_errors=True)
+    if case.get('check') == 'ignored_arguments':
+        import tempfile, shutil
+        d = tempfile.mkdtemp(prefix='c16r-')
+        clock = instr.Clock(1000.0)
+        ign = tuple(dec_value(x) for x in case['ignore'])
+        try:
+            with instr.Installed(clock):
+                fac, _, close = make_target(case['kind'], d, clock)
+                try:
+                    bad = run_ignored(fw.Result(), clock, fac, case['kind'], case['typed'], ign, case['expire'], [dec_call(c) for c in case['calls']])
+                finally:
+                    close()
+            for sig, first, call, text in bad:
+                print('MONITOR %s: %s' % (sig, text))
+            print('%s memoizer, ignore=%r: %s' % (case['kind'], ign, 'the second call was served from the cache' if not bad else 'the second call was NOT served from the cache'))
+            return not bad
+        finally:
+            shutil.rmtree(d, ignore_errors=True)
+    if case.get('check') == 'lock_contention':
+        import tempfile, shutil
+        d = tempfile.mkdtemp(prefix='c16r-')
+        ign = tuple(dec_value(x) for x in case['ignore'])
+        try:
+            job = (case['phase'], case['failed_attempts'], case['typed'], ign, case['expire'], dec_call(case['call']))
+            bad = contention_case(lambda: os.path.join(d, 'c'), fw.Result(), case['kind'], case['mode'], [job])[0]
+            for sig, text in bad:
+                print('MONITOR %s: %s' % (sig, text))
+            print('%s memoizer, %s settings, lock held during the %s call: %s' % (
+                case['kind'], case['mode'], case['phase'], 'repeated calls served from the cache' if not bad else 'NOT served from the cache'))
             return not bad
         finally:
             shutil.rmtree(d, ignore_errors=True)
